@@ -79,7 +79,8 @@ impl WriteSource for pr::TyTupleField {
                 if let Some(expr) = expr {
                     r += &expr.write(opt)?;
                 } else {
-                    r += "?";
+                    // a field of any type is spelled `*` (`{start = *, end = *}`)
+                    r += "*";
                 }
                 Some(r)
             }
